@@ -14,11 +14,17 @@
 #include "llbuild/Basic/ExecutionQueue.h"
 #include "llvm/Support/MemoryBuffer.h"
 using namespace llbuild; using namespace llbuild::basic; using namespace llbuild::buildsystem;
+#ifndef VF_SHAPE
+#define VF_SHAPE 0
+#endif
+#ifndef VF_ABS
+#define VF_ABS 0
+#endif
 #ifndef VF_N
 #define VF_N 2
 #endif
 static char g_raw[2 * VF_N + 1]; static unsigned g_rawLen; static char g_word[VF_N + 1]; static int g_parseCalls = 0;
-static unsigned char g_key[24]; static size_t g_keyLen = 0; static int g_discovered = 0, g_found = 0, g_errors = 0;
+static unsigned char g_key[24]; static size_t g_keyLen = 0; static unsigned char g_foundPath[24]; static size_t g_foundLen = 0; static bool g_foundInput = false; static int g_discovered = 0, g_found = 0, g_errors = 0;
 struct HDel : public BuildSystemDelegate {
   HDel() : BuildSystemDelegate("h", 0) {}
   void setFileContentsBeingParsed(StringRef) override {}
@@ -34,7 +40,7 @@ struct HDel : public BuildSystemDelegate {
   void commandHadNote(Command*, StringRef) override {}
   void commandHadWarning(Command*, StringRef) override {}
   void commandFinished(Command*, ProcessStatus) override {}
-  void commandFoundDiscoveredDependency(Command*, StringRef, DiscoveredDependencyKind) override { g_found++; }
+  void commandFoundDiscoveredDependency(Command*, StringRef p, DiscoveredDependencyKind k) override { g_found++; g_foundLen = p.size(); g_foundInput = k == DiscoveredDependencyKind::Input; for (size_t i = 0; i < p.size() && i < 24; i++) g_foundPath[i] = (unsigned char)p[i]; }
   void commandCannotBuildOutputDueToMissingInputs(Command*, Node*, ArrayRef<BuildKey>) override {}
   Command* chooseCommandFromMultipleProducers(Node*, std::vector<Command*>) override { return nullptr; }
   void cannotBuildNodeDueToMultipleProducers(Node*, std::vector<Command*>) override {}
@@ -50,10 +56,16 @@ extern "C" void stub_parse(core::MakefileDepsParser* p) {           // contract 
 }
 extern "C" void stub_discovered(core::TaskInterface*, const core::KeyType* k) { g_discovered++; g_keyLen = k->size(); for (size_t i = 0; i < k->size() && i < 24; i++) g_key[i] = (unsigned char)k->data()[i]; }
 // environment of lib/llvm/Support/Path.cpp on POSIX
-extern "C" bool stub_is_absolute(const llvm::Twine* t, int) { StringRef s = t->getSingleStringRef(); return s.size() > 0 && s[0] == '/'; }
+extern "C" bool stub_is_absolute(const llvm::Twine* t, int) {
+  StringRef s = t->getSingleStringRef(); bool r = s.size() > 0 && s[0] == '/';
+  VF_ASSUME(r == (bool)VF_ABS);        // the query's concrete shape (absolute / relative); returned as a constant so that symex follows one branch
+  return (bool)VF_ABS;
+}
 extern "C" void stub_path_append(llvm::SmallVectorImpl<char>* path, const llvm::Twine* a, const llvm::Twine* b, const llvm::Twine* c, const llvm::Twine* d) {
   StringRef s = a->getSingleStringRef();
-  if (!path->empty() && path->back() != '/') path->push_back('/');
+  bool sep = !path->empty() && path->back() != '/';
+  VF_ASSUME(sep);                       // the working directory of this harness is "/w": a separator is needed (kept out of symex's branching)
+  path->push_back('/');
   for (size_t i = 0; i < s.size(); i++) path->push_back(s[i]);
 }
 struct EC { int v; const void* cat; };
@@ -62,15 +74,18 @@ extern "C" void harness_handoff(void) {
   g_del = new HDel;
   BuildSystem* sys = (BuildSystem*)malloc(64);
   // a path of VF_N bytes and its documented escaping (the raw slice the parser reports)
-  unsigned e = 0;
-  for (unsigned i = 0; i < VF_N; i++) {
-    uint8_t c = nondet_u8(); VF_ASSUME(c == 'a' || c == ' ' || c == '#' || c == '$' || c == '/');
+  // (one concrete escaping shape per query - VF_SHAPE, a base-3 digit per byte - so that every length stays concrete)
+  unsigned e = 0; unsigned shape = VF_SHAPE;
+  for (unsigned i = 0; i < VF_N; i++, shape /= 3) {
+    uint8_t c = nondet_u8(); unsigned k = shape % 3;
+    if (k == 0) VF_ASSUME(c == 'a' || c == '/' || c == '.'); else if (k == 1) VF_ASSUME(c == ' ' || c == '#'); else VF_ASSUME(c == '$');
+    if (i == 0) VF_ASSUME(VF_ABS ? c == '/' : c != '/');     // absolute / relative
     g_word[i] = (char)c;
-    if (c == ' ' || c == '#') { g_raw[e++] = '\\'; g_raw[e++] = (char)c; } else if (c == '$') { g_raw[e++] = '$'; g_raw[e++] = '$'; } else g_raw[e++] = (char)c;
+    if (k == 1) { g_raw[e++] = '\\'; g_raw[e++] = (char)c; } else if (k == 2) { g_raw[e++] = '$'; g_raw[e++] = '$'; } else g_raw[e++] = (char)c;
   }
   g_rawLen = e;
   ShellCommand& cmd = *new ShellCommand("c", false);
-  cmd.workingDirectory = "/w";
+  { std::string wd("/w"); cmd.workingDirectory.swap(wd); }     // (assign(const char*) runs _M_replace, whose aliasing test compares unrelated pointers)
   struct FakeBuffer { void* vptr; const char* s; const char* e; } fb = { 0, "", "" };
   core::TaskInterface ti(nullptr, nullptr);
   bool ok = cmd.processMakefileDiscoveredDependencies(*sys, ti, nullptr, "d", (llvm::MemoryBuffer*)&fb, false);
@@ -82,5 +97,7 @@ extern "C" void harness_handoff(void) {
   VF_ASSERT(g_keyLen == 1 + pre + VF_N && g_key[0] == 'N', "the key is the node key of the path, made absolute against the working directory iff relative");
   if (!abs) VF_ASSERT(g_key[1] == '/' && g_key[2] == 'w' && g_key[3] == '/', "relative paths are resolved against the command's working directory");
   for (unsigned i = 0; i < VF_N; i++) VF_ASSERT(g_key[1 + pre + i] == (unsigned char)g_word[i], "the registered path is the unescaped path, byte for byte");
+  VF_ASSERT(g_foundInput && g_foundLen + 1 == g_keyLen, "the client is told about the same path, as an input");
+  for (unsigned i = 0; i + 1 < 1 + pre + VF_N; i++) VF_ASSERT(g_foundPath[i] == g_key[i + 1], "the client is told about the same path, as an input");
   VF_WITNESS();
 }
